@@ -694,6 +694,26 @@ func recordC03(env *Env) {
 	for _, e := range evs {
 		env.emit(e)
 	}
+	// the memory brake of obipcr (LimitMemory) under lasting memory pressure (a limit that is never met): after its
+	// bounded wait it must let every batch through and end the stream
+	{
+		e := streamEvent{Op: "limitmem", Sizes: []int{2, 1, 3}, Sizes2: []int{}, Sizes3: []int{}, Keep: []int{}, Push: ident(3), Out: []outBatch{}}
+		it := source(batchesOf(e.Sizes, 0), e.Push).LimitMemory(1e-12)
+		var out []outBatch
+		done := make(chan struct{})
+		go func() {
+			defer close(done)
+			for it.Next() {
+				out = append(out, toOut(it.Get(), false))
+			}
+		}()
+		if !waitTimeout(done, 90*time.Second) {
+			e.Hung = 1
+		} else {
+			e.Out = out
+		}
+		env.emit(e)
+	}
 	// Pool and the multi-file reader number their output with a shared counter: 16 streams of one-record batches
 	// pushed at full speed, several rounds; a round is bad when the numbers that come out are not 0..N-1 once each
 	{
